@@ -310,3 +310,101 @@ def rule_clock_freshness(run):
                     fresh = False
             run.ob("%s|expiry-clock" % fn, fresh, cond[1].sp, "the clock is read after the frame was obtained from the iterator (per decision)", reason="stale-clock-in-expiry")
     run.floor("expiry decisions guarding GCTask::Remove", n, 2)
+
+
+# ------------------------------------------------------------------ name-independent roles of captured values
+
+def capture_origin(run, body, cap_name):
+    """(parent_body, expr) moved / copied into capture `cap_name` of the closure / coroutine `body` at its construction site."""
+    names = [c["name"] for c in body.captures]
+    if cap_name not in names:
+        return None
+    idx = names.index(cap_name)
+    for pb in run.facts.all_bodies():
+        if not (body.def_.startswith(pb.def_) or pb.def_.startswith(run.facts.enclosing_fn(body))):
+            continue
+        for bi, si, st in pb.stmt_points():
+            if st["k"] == "assign" and st["rv"].get("agg") in ("closure", "coroutine") and st["rv"].get("def") == body.def_:
+                e = pb.rvalue_expr(st["rv"])
+                if idx < len(e[2]):
+                    return pb, e[2][idx]
+    return None
+
+
+def denotes_field(run, body, e, field, depth=0):
+    """Does expression `e` (in `body`) carry the value of a struct field called `field` (e.g. ReadOptions.limit), directly,
+    through a precise capture (`options__limit`) or through a capture of a local copy (`let limit = options.limit`)?"""
+    for y in walk(e):
+        if y[0] == "field" and y[1][0] != "env" and str(y[2]) == field:
+            return True
+        if y[0] == "field" and y[1][0] == "env":
+            name = str(y[2])
+            if name.split("__")[-1] == field:
+                return True
+            if depth < 3:
+                po = capture_origin(run, body, name)
+                if po is not None and denotes_field(run, po[0], po[1], field, depth + 1):
+                    return True
+        if y[0] == "arg" and y[2] == field:
+            return True
+    return False
+
+
+def is_oneshot_await(e):
+    """The value obtained by awaiting a tokio oneshot receiver (the history -> live hand-off)."""
+    return any(y[0] == "call" and y[1].fn.endswith("Future::poll") and "tokio::sync::oneshot::Receiver" in y[1].fnx for y in walk(e))
+
+
+def capture_type_contains(body, e, needle):
+    """Is `e` (a place rooted in the closure environment) a capture whose type mentions `needle`?"""
+    x = strip(e)
+    while x[0] in ("downcast", "deref", "ref") or (x[0] == "field" and x[1][0] != "env"):
+        x = x[1]
+    if x[0] == "field" and x[1][0] == "env":
+        for c in body.captures:
+            if c["name"] == str(x[2]):
+                return needle in body.types.s(c["ty"])
+    return False
+
+
+def follow_flag_edges(run, body):
+    """True edges of switches on a bool that is true exactly when the read follows: a captured / local bool whose definitions in
+    the parent are `true` under the On / WithHeartbeat arms of a switch on the `follow` option and `false` under Off."""
+    out = []
+    for bb, si in body.switches():
+        if si["kind"] != "bool":
+            continue
+        c = strip(si["cond"])
+        src = None
+        if c[0] == "field" and c[1][0] == "env":
+            src = capture_origin(run, body, str(c[2]))
+        elif c[0] == "phi":
+            src = (body, c)
+        if src is None:
+            continue
+        pb, e = src
+        e = strip(e)
+        if e[0] != "phi":
+            continue
+        local = e[1]
+        ok = True
+        n = 0
+        for d in pb.defs().get(local, []):
+            if d[0] != "assign" or "use" not in d[3] or "const" not in d[3]["use"] or "bool" not in d[3]["use"]["const"]:
+                ok = False
+                continue
+            val = d[3]["use"]["const"]["bool"]
+            # find a variant switch on the follow option with an edge dominating this definition
+            found = False
+            for sb, ss in pb.switches():
+                if ss["kind"] == "variant" and denotes_field(run, pb, ss["cond"], "follow"):
+                    on_edges = [(sb, t, lab) for (t, lab, m) in ss["edges"] if (set(m) if isinstance(m, tuple) else {m}) <= {"On", "WithHeartbeat"} and m]
+                    off_edges = [(sb, t, lab) for (t, lab, m) in ss["edges"] if (set(m) if isinstance(m, tuple) else {m}) <= {"Off"} and m]
+                    grp = on_edges if val else off_edges
+                    if grp and q.dominated(pb, d[1], via_edges=grp):
+                        found = True
+            ok = ok and found
+            n += 1
+        if ok and n >= 2:
+            out += q.edge_triples(body, bb, lambda m: m is True)
+    return out
